@@ -11,6 +11,7 @@ construction) is outside.
 import Bermuda.Model.Resample
 import Bermuda.Spec.C17
 import Bermuda.Lemmas.Resample
+import Bermuda.Lemmas.ResampleSpec
 namespace Bermuda.Properties.C17
 open Bermuda Bermuda.Resample
 
@@ -96,15 +97,94 @@ theorem bootstrapSlice_count {s : List Cell} {n : Nat} {field : Option (List Str
     reps.length = n := by
   simpa using mapMExcept_length h
 
--- OPEN bootstrap_structure
---   theorem bootstrap_structure (h : bootstrap t n field P = .ok reps) (canonical t) (distinct coordinates) :
---     ∀ i < n, reps[i] has exactly the coordinates, slices and field names of t, every metadata
---     being `md.edit (.detail "bootstrap" i)`  (i.e. Spec.C17.bootstrapStructureOk t n reps = true)
---   Proved so far: the replicate count (`bootstrap_count`, `bootstrapSlice_count`), and for the
---   age-to-age step coordinates / classes / fields / first cell (`develop_coords_fields`,
---   `develop_first_unchanged`). Missing: composition through `Triangle.slices`, `tagBootstrap`
---   (`deriveMetadata` + re-sort) and `sumTriangles`. Checked on every implementation output by
---   `Spec.C17.bootstrapStructureOk` instead.
+/-- what replicate `i` may do to a cell `c` of `t`: same period and dates, same class, the
+metadata of `c` with the extra detail `bootstrap = i`, every field name of `c` still there, and no
+field name that does not occur somewhere in `t` -/
+def TagRel (t : List Cell) (i : Nat) (c o : Cell) : Prop :=
+  o.ps = c.ps ∧ o.pe = c.pe ∧ o.ev = c.ev ∧ o.prev = c.prev ∧ o.kind = c.kind ∧
+  o.md = c.md.edit (.detail "bootstrap" (.num (i : Rat))) ∧
+  (∀ f ∈ c.values.keys, f ∈ o.values.keys) ∧ (∀ f ∈ o.values.keys, ∃ c' ∈ t, f ∈ c'.values.keys)
+
+/-- **bootstrap_structure (multiset form).** For EVERY factor table and quantile vector: replicate
+`i` is, up to order, the cells of `t` (up to order) each transformed by `tagCell i` after a
+change that keeps coordinates, class and field names (`PreRel`). -/
+theorem bootstrap_structure_perm {t : List Cell} {n : Int} {field : Option (List String)}
+    {P : Nat → Nat → RepParam} {reps : List (List Cell)}
+    (h : bootstrap t n field P = .ok reps) (hk : kindsConsistent t = true) :
+    ∀ i (hi : i < reps.length), ∃ t' l, t'.Perm t ∧ reps[i].Perm (l.map (tagCell i)) ∧
+      List.Forall₂ (PreRel t) t' l := by
+  unfold bootstrap at h
+  split at h
+  · cases h
+  · dsimp only at h
+    split at h
+    · cases h
+    · rename_i boots hboots
+      have hb2 : ∀ i, i < n.toNat →
+          List.Forall₂ (fun s r => ∃ l, r.Perm (l.map (tagCell i)) ∧ List.Forall₂ (PreRel s) s l)
+            ((Triangle.slices t).map (·.2)) (boots.map (·.getD i [])) := by
+        intro i hin
+        clear h
+        have hb := mapMExcept_forall₂ hboots
+        have hprops := slice_props hk
+        rw [← List.zipIdx_map_fst 0 ((Triangle.slices t).map (·.2))] at hprops ⊢
+        refine forall₂_map_left' (forall₂_map_right' ?_)
+        generalize (List.map (fun x => x.2) (Triangle.slices t)).zipIdx = zs at hb hprops
+        clear hboots
+        induction hb with
+        | nil => exact .nil
+        | @cons sk b _ _ hh _ ih =>
+          refine .cons ?_ (ih (fun s hs => hprops s (by
+            simp only [List.map_cons, List.mem_cons]; exact Or.inr hs)))
+          obtain ⟨hk', hs', _⟩ := hprops sk.1 (by simp)
+          have hbl := mapMExcept_length hh
+          simp only [List.length_range] at hbl
+          have hib : i < (List.range n.toNat).length := by simpa using hin
+          have hr := mapMExcept_getElem hh i hib
+          simp only [List.getElem_range] at hr
+          have hget : b.getD i [] = b[i]'(by rw [hbl]; exact hin) := by
+            simp [List.getD_eq_getElem?_getD, hbl, hin]
+          rw [hget]
+          exact replicate_pre hr hk' hs'
+      split at h
+      · cases h; intro i hi; simp at hi
+      · intro i hi
+        have hlen := mapMExcept_length h
+        have hi' : i < (List.range n.toNat).length := by rw [← hlen]; exact hi
+        have hrep := mapMExcept_getElem h i hi'
+        simp only [List.getElem_range] at hrep
+        have hin : i < n.toNat := by simpa using hi'
+        have hsum := sumTriangles_perm hrep
+        obtain ⟨l, hp, hf⟩ := assemble (T := t) (hb2 i hin) (fun s hs => (slice_props hk s hs).2.2)
+        exact ⟨_, l, slices_flatten_perm t, hsum.trans hp, hf⟩
+
+/-- **bootstrap_structure.** For EVERY factor table and quantile vector, replicate `i` has as many
+cells as `t`; every cell of `t` has a counterpart in it and every cell of it comes from a cell of
+`t`, the counterpart having the same period and dates, the same class, the same metadata plus the
+detail `bootstrap = i` (hence the same slices, each tagged), every field name of the source cell
+and no field name foreign to `t`. Together with `bootstrap_count`: exactly `n` such replicates. -/
+theorem bootstrap_structure {t : List Cell} {n : Int} {field : Option (List String)}
+    {P : Nat → Nat → RepParam} {reps : List (List Cell)}
+    (h : bootstrap t n field P = .ok reps) (hk : kindsConsistent t = true) :
+    ∀ i (hi : i < reps.length), reps[i].length = t.length ∧
+      (∀ c ∈ t, ∃ o ∈ reps[i], TagRel t i c o) ∧ (∀ o ∈ reps[i], ∃ c ∈ t, TagRel t i c o) := by
+  intro i hi
+  obtain ⟨t', l, hpt, hpr, hf⟩ := bootstrap_structure_perm h hk i hi
+  have hf' : List.Forall₂ (TagRel t i) t' (l.map (tagCell i)) := by
+    refine forall₂_map_right' (Blend.forall₂_imp' ?_ hf)
+    rintro c o ⟨h1, h2, h3, h4⟩
+    simp only [Cell.coord, Coord.mk.injEq] at h1
+    obtain ⟨g1, g2, g3, g4, g5⟩ := h1
+    exact ⟨g2, g3, g4, g5, h2, by simp [tagCell, g1], h3, h4⟩
+  refine ⟨?_, ?_, ?_⟩
+  · rw [hpr.length_eq, ← hpt.length_eq]
+    exact Blend.forall₂_length' hf'
+  · intro c hc
+    obtain ⟨o, ho, hr⟩ := forall₂_mem_left hf' c (hpt.mem_iff.mpr hc)
+    exact ⟨o, hpr.mem_iff.mpr ho, hr⟩
+  · intro o ho
+    obtain ⟨c, hc, hr⟩ := forall₂_mem_right hf' o (hpr.mem_iff.mp ho)
+    exact ⟨c, hpt.mem_iff.mp hc, hr⟩
 
 /-! ### 4. thin -/
 
@@ -161,7 +241,8 @@ that ONE field replaced (`Dict.set` keeps every other field and the key order) -
 theorem momentField_values {f : String} {draws : Nat → List Rat} {cs out : List Cell} {i : Nat}
     (h : momentField f draws i cs = .ok out) :
     List.Forall₂ (fun c o => o.coord = c.coord ∧ o.kind = c.kind ∧
-      ∃ v drawn, c.values.get? f = some v ∧ o.values = c.values.set f (generateSamples v drawn))
+      ∃ v drawn, (∃ j, drawn = draws j) ∧ c.values.get? f = some v ∧
+        o.values = c.values.set f (generateSamples v drawn))
       cs out :=
   momentField_rel h
 
@@ -209,13 +290,52 @@ theorem momentMatch_selected_fields {t out : List Cell} {fields : List String} {
     {draws : Nat → String → List Rat} (h : momentMatch t fields distOk draws = .ok out)
     (hnd : fields.Nodup)
     (hk : kindsConsistent t = true) (hs : t.Pairwise (fun a b => Cell.le a b)) :
-    List.Forall₂ (fun c o => ∀ f ∈ fields, ∃ v drawn, c.values.get? f = some v ∧
-      o.values.get? f = some (generateSamples v drawn)) t out := by
+    List.Forall₂ (fun c o => ∀ f ∈ fields, ∃ v drawn, (∃ j, drawn = draws j f) ∧
+      c.values.get? f = some v ∧ o.values.get? f = some (generateSamples v drawn)) t out := by
   unfold momentMatch at h
   split at h
   · cases h
   · split at h
     · cases h
     · exact momentLoop_selected h hnd hk hs
+
+/-! ### 6. the executable Spec predicates hold on the model's outputs -/
+
+/-- `Spec.C17.rankOrderOk`, `rankFixed`, `sameMultiset` — the three verdicts of the driver's
+`reimpose` request — are true of `reimposeRank xs qs` -/
+theorem spec_rank {xs qs : List Rat} (hl : qs.length = xs.length) :
+    Spec.C17.rankOrderOk xs (reimposeRank xs qs) = true ∧
+    Spec.C17.rankFixed xs (reimposeRank xs qs) = true ∧
+    Spec.C17.sameMultiset qs (reimposeRank xs qs) = true :=
+  ⟨rankOrderOk_reimpose hl, rankFixed_reimpose hl, sameMultiset_reimpose hl⟩
+
+/-- `Spec.C17.thinOk` is true of the model's thinned triangle whenever the predicate can read the
+index vector back (`spec_thin_recoverable` gives a sufficient condition) -/
+theorem spec_thin {t out : List Cell} {idx : List Nat} {k n : Nat}
+    (h : thin t k idx = .ok (.fresh out)) (hkc : kindsConsistent t = true)
+    (hs : t.Pairwise (fun a b => Cell.le a b))
+    (hrec : Spec.C17.recoverIdx t (t.map (thinCell idx)) = some idx) (hk : idx.length = k)
+    (hnd : idx.Nodup) (hr : ∀ i ∈ idx, i < n) (hwf : ∀ c ∈ t, c.values.keys.Nodup) :
+    Spec.C17.thinOk t out k n = true := by
+  rw [thin_fresh h hkc hs]
+  exact thinOk_model hrec hk hnd hr hwf
+
+theorem spec_thin_recoverable {c : Cell} {rest : List Cell} {f : String} {isInt : Bool} {m : Nat}
+    {d : List Rat} {vs : Dict Val} {idx : List Nat}
+    (hv : c.values = (f, .arr isInt [m] d) :: vs) (hlen : d.length > 1) (hd : d.Nodup)
+    (hr : ∀ i ∈ idx, i < d.length) :
+    Spec.C17.recoverIdx (c :: rest) ((c :: rest).map (thinCell idx)) = some idx :=
+  recoverIdx_first hv hlen hd hr
+
+/-- `Spec.C17.momentOk` is true of the model's `moment_match`, for every drawn vectors at least as
+long as the arrays they replace -/
+theorem spec_moment {t out : List Cell} {fields : List String} {distOk : Bool}
+    {draws : Nat → String → List Rat} (h : momentMatch t fields distOk draws = .ok out)
+    (hnd : fields.Nodup) (hk : kindsConsistent t = true) (hs : t.Pairwise (fun a b => Cell.le a b))
+    (hwf : ∀ c ∈ t, c.values.keys.Nodup)
+    (hlen : ∀ c ∈ t, ∀ f isInt n d, (f, Val.arr isInt [n] d) ∈ c.values →
+      ∀ j, d.length ≤ (draws j f).length) :
+    Spec.C17.momentOk t out fields = true :=
+  momentOk_model h hnd hk hs hwf hlen
 
 end Bermuda.Properties.C17
